@@ -14,6 +14,15 @@ out = ["# Automatic first-order mutants of /repo/src (tools/mutate.py)", "",
        "(first reporting check of the panel: " + ", ".join(f"{k} {n}" for k, n in caught_by.most_common()) + ").", "",
        "## Survivors (baseline passes, no quick check of the panel of 20 reports them), with my reading of each", ""]
 WHY = [
+    (lambda v: v["file"] == "builder.rs" and "MAX_PSKS" in v["old"], "REAL GAP (closed): `Builder::psk(10, ..)` panics; the setter chains used position 10 exactly only with probability 1/246 -- boundary positions are now deliberate"),
+    (lambda v: v["file"] == "transportstate.rs" and "MAXMSGLEN - 1" in v["new"], "REAL GAP (closed): a stateful transport write refusing exactly the largest legal payload (65519 bytes); only the stateless stream wrote maximum-size payloads -- now both do"),
+    (lambda v: v["file"] == "cipherstate.rs" and v["line"] == 155, "REAL GAP (closed): stateless read of a genuine message into an undersized payload buffer was never generated -- now it is (refused, no panic)"),
+    (lambda v: v["file"] == "resolvers/default.rs" and "::default();" in v["old"], "REAL GAP (closed, also seed C18-L): `reset()` of a default hash made a no-op; a hash object with pending input was never reset or reused -- the `hashseq` operation does that now"),
+    (lambda v: v["file"] == "resolvers/ring.rs" and "try_fill_bytes(dest).unwrap()" in v["old"], "REAL GAP (closed): ring's `fill_bytes` made a no-op (all-zero randomness): sessions use scripted randomness, so the ring RNG was never drawn from -- now 120 draws and 24 generated keys per resolver RNG must be distinct, and many unscripted sessions run on fb(ring,default)"),
+    (lambda v: v["file"] == "resolvers/ring.rs" and v["line"] == 214, "which of ring's two decrypt paths serves a buffer of exactly the ciphertext's size: same result, same accepted set; only bytes beyond the plaintext / after a failure differ, which no property constrains: equivalent for the properties"),
+    (lambda v: v["file"] == "params/patterns.rs" and v["line"] > 540, "`apply_hfs_modifier` (`hfs`-only), compiled out: equivalent"),
+    (lambda v: v["file"] == "resolvers/default.rs" and v["line"] > 590, "Kyber KEM wrapper (`hfs`), compiled out: equivalent"),
+    (lambda v: v["file"] == "handshakestate.rs" and 415 < v["line"] < 460, "`hfs`-only token arms (E1 / Ekem1), compiled out: equivalent"),
     (lambda v: v["file"] == "handshakestate.rs" and v["line"] in (69, 70, 71), "consistency guard of `HandshakeState::new` (`s`/`e`/`rs`/`re` lengths): `e` and `re` are always off at construction and the arrays are `MAXDHLEN` long, so only a resolver that answers two `resolve_dh` requests differently reaches it: equivalent for every resolver expression of the harness"),
     (lambda v: "kem" in v["old"] or "kem" in v["new"], "`hfs`-only code, compiled out: equivalent"),
     (lambda v: v["file"] == "handshakestate.rs" and "dh.is_on() || key.is_on()" in v["new"], "`MissingKeyMaterial` guard in `dh()`: for table patterns both keys are always present when a DH token is reached (C12 `no_missing_key_later`): unreachable"),
